@@ -163,6 +163,28 @@ func (cs *ContractSet) get(key string) *FuncContract {
 	return cs.byName[key]
 }
 
+// isGhostGlobal: name is a ghost global declared in the current scope (or unscoped).
+func (cs *ContractSet) isGhostGlobal(name string) bool {
+	if _, ok := cs.ghosts[curScope+"::"+name]; ok {
+		return true
+	}
+	if _, ok := cs.ghosts[name]; ok {
+		return true
+	}
+	for k := range cs.ghosts {
+		if strings.HasSuffix(k, "::"+name) {
+			return true
+		}
+	}
+	return false
+}
+
+// ghostInScope: a ghost global called name is declared in package scope (short path).
+func (cs *ContractSet) ghostInScope(name, scope string) bool {
+	_, ok := cs.ghosts[scope+"::"+name]
+	return ok
+}
+
 func (cs *ContractSet) forFunc(fn *ssa.Function) *FuncContract {
 	if fn == nil {
 		return nil
